@@ -654,6 +654,17 @@ class _SetOperation(Selectable, Term):  # type:ignore[misc]
     def __str__(self) -> str:
         return self.get_sql(DEFAULT_SQL_CONTEXT)
 
+    def __eq__(self, other: Any) -> bool:  # type:ignore[override]
+        # Like QueryBuilder: a row source is identified by its alias, == must not build a criterion
+        return isinstance(other, _SetOperation) and self.alias == other.alias
+
+    def __ne__(self, other: Any) -> bool:  # type:ignore[override]
+        return not self.__eq__(other)
+
+    def __hash__(self) -> int:
+        # Hash exactly what __eq__ compares
+        return hash(self.alias)
+
     def get_sql(self, ctx: SqlContext) -> str:
         set_operation_template = " {type} {query_string}"
 
